@@ -13,7 +13,7 @@
    rewrite relation; the skip and squash lemmas by induction on the input), no axioms. *)
 From Coq Require Import List NArith.
 Import ListNotations.
-From PP Require Import Base Syntax Spec SpecMono SpecLaws SpecEquiv Opt OptProof OptSkip Interp InterpProof Gen GenProof.
+From PP Require Import Base Syntax Spec SpecSyn SpecMono SpecLaws SpecEquiv Opt OptProof OptSkip Interp InterpProof Gen GenProof OptPass OptPassProof.
 
 (* `req`: same constructor; on success the same tree and the same final position, stack and tags;
    failure with failure; undefined rule with undefined rule *)
@@ -120,6 +120,26 @@ Proof. exact repminmax_unrolled. Qed.
 Theorem C02_skip_side_condition : forall g ev c s, c_atom c <> NonAtomic -> skip_with g ev c s = Ok s [].
 Proof. exact atomic_no_trivia. Qed.
 
+(* ---- the unroll PASS itself (not only its output) ----
+   OptPass.v transcribes Expression.map_bottom_up, the POSTORDER step of Optimizer.optimize (built-in entries
+   skipped) and unroller.unroll; on every run the table the real pass produces alone is compared, rule by rule,
+   with the table the extracted model computes (driver command U: evidence key optimizer_pass_model_tie).
+   For EVERY grammar (distinct rule names, no user rule on the reserved SKIP identifier, every e{m,n} with
+   m <= n) the model's output is accepted by the validator, hence parses exactly like the original. *)
+Theorem C02_unroll_pass_output_is_validated : forall bi g,
+  names_nodup g = true -> defined_in g SKIP_ID = false -> all_grammar count_ok g = true ->
+  ochk_grammar g (pass_unroll bi g) (gdepth g) = true.
+Proof. exact pass_unroll_validated. Qed.
+
+Theorem C02_unroll_pass_preserves_meaning : forall bi g,
+  names_nodup g = true -> defined_in g SKIP_ID = false -> all_grammar count_ok g = true ->
+  forall rule input k, defined_in g rule = true ->
+    (forall f r, parse g f rule input k = r -> r <> Fuel ->
+       exists f', req (parse (pass_unroll bi g) f' rule input k) r) /\
+    (forall f r, parse (pass_unroll bi g) f rule input k = r -> r <> Fuel ->
+       exists f', req (parse g f' rule input k) r).
+Proof. exact pass_unroll_sound. Qed.
+
 (* non-vacuity: the checker accepts a real optimizer output (unroll + squash + fused SKIP rule) and
    rejects the reordering of "a" | "ab" and a skip rewrite where trivia applies *)
 Definition R n sil k b := {| r_name := n; r_silent := sil; r_kind := k; r_body := b |}.
@@ -139,7 +159,24 @@ Example validator_rejects_skip_under_trivia :
                [R 0 true KNormal (EStr [32%N]); R 4 false KNormal (ESkipUntil [[98%N]])] 200 = false.
 Proof. vm_compute. reflexivity. Qed.
 
+(* non-vacuity of the pass theorems: a table that meets the hypotheses and that the pass really rewrites
+   (a tagged and an untagged group under +, {2}, {1,}, {,2}, {1,3}, nested) *)
+Example unroll_pass_rewrites :
+  let g := [R 4 false KNormal (ESeq [EPlus (EGrp (EStr [97%N]) None); EPlus (EGrp (ERef 5 None) (Some 0%N));
+                                     ERepMinMax (ERepN (EStr [98%N]) 2) 1 3]);
+            R 5 true KAtomic (EAlt [ERepMin (ERange 48 57) 1; ERepMax EAny 2])] in
+  names_nodup g = true /\ defined_in g SKIP_ID = false /\ all_grammar count_ok g = true /\
+  pass_unroll (fun _ => false) g =
+    [R 4 false KNormal (ESeq [ESeq [EStr [97%N]; EStar (EGrp (EStr [97%N]) None)];
+                              ESeq [EGrp (ERef 5 None) (Some 0%N); EStar (EGrp (ERef 5 None) (Some 0%N))];
+                              ESeq [ESeq [EStr [98%N]; EStr [98%N]];
+                                    EOpt (ESeq [EStr [98%N]; EStr [98%N]]); EOpt (ESeq [EStr [98%N]; EStr [98%N]])]]);
+     R 5 true KAtomic (EAlt [ESeq [ERange 48 57; EStar (ERange 48 57)]; ESeq [EOpt EAny; EOpt EAny]])].
+Proof. vm_compute. repeat split; reflexivity. Qed.
+
 Print Assumptions C02_validated_optimization_preserves_meaning.
+Print Assumptions C02_unroll_pass_output_is_validated.
+Print Assumptions C02_unroll_pass_preserves_meaning.
 Print Assumptions C02_interpreter_optimized_equals_unoptimized.
 Print Assumptions C02_unroll_plus.
 Print Assumptions C02_unroll_exact.
